@@ -5,7 +5,7 @@ import AtreeProofs.Map.Basics
 namespace Atree
 open Gen
 
-theorem legal_bounds {T : Nat} (hT : legalThreshold T = true) : 256 ≤ T ∧ T ≤ 32768 := by
+theorem map_legal_bounds {T : Nat} (hT : legalThreshold T = true) : 256 ≤ T ∧ T ≤ 32768 := by
   simp only [legalThreshold, minSlabSize, maxSlabSize, Bool.and_eq_true] at hT
   exact ⟨of_decide_eq_true hT.1, of_decide_eq_true hT.2⟩
 
@@ -20,7 +20,7 @@ theorem maxInlineMapValue_eq (T ks : Nat) : maxInlineMapValue T ks = maxInlineMa
   simp [maxInlineMapValue, singleElementPrefixSize]
 
 theorem maxInlineMapElem_ge {T : Nat} (hT : legalThreshold T = true) : 107 ≤ maxInlineMapElem T := by
-  have := legal_bounds hT; rw [maxInlineMapElem_eq]; omega
+  have := map_legal_bounds hT; rw [maxInlineMapElem_eq]; omega
 
 theorem slabIDStorableSize_eq : slabIDStorableSize = 19 := by
   simp [slabIDStorableSize, SlabIDLength]
